@@ -15,7 +15,15 @@ theorem v1_runPipeline : v1_runPipeline_order = ["publish", "UpdateStatus(Runnin
 
 /-- v2 runPipeline: cleanup goroutine registered BEFORE `runningPipelines.Set` → `UpdateStatus(Running)`
 (model: `buildOk` sets `cpc := waiting`; no rollback). -/
-theorem v2_runPipeline : v2_runPipeline_order = ["registerCleanup", "publish", "UpdateStatus(Running)"] := by decide
+theorem v2_runPipeline : v2_runPipeline_order = ["registerCleanup", "publish", "UpdateStatus(Running)", "releaseCleanup"] := by decide
+
+/-- in both engines the cleanup goroutine can write its terminal status only AFTER the run's own
+StatusRunning write has returned: v1 registers it after the write, v2 releases it (`close(startupDone)`)
+after the write (model: `cleanupWake` needs `cpc = waiting`, set by `writeRunning` in v1, and
+`phase ∈ {started, failedLive}` in v2). -/
+theorem running_write_before_cleanup :
+    v1_runPipeline_order.dropWhile (· ≠ "UpdateStatus(Running)") = ["UpdateStatus(Running)", "rollback", "registerCleanup"] ∧
+    v2_runPipeline_order.dropWhile (· ≠ "UpdateStatus(Running)") = ["UpdateStatus(Running)", "releaseCleanup"] := by decide
 
 /-- cleanup tail: terminal error recorded BEFORE the map entry is removed, notify last. The removal
 is the compare-and-delete in v1; in v2 it is whichever the flag `v2CompareDelete` says. -/
